@@ -1,6 +1,7 @@
 package main
 
 import (
+	"strings"
 	"fmt"
 	"go/token"
 	"go/types"
@@ -161,9 +162,42 @@ func (fv *FuncVC) loopModSet(body []*ssa.BasicBlock) *modSet {
 	return ms
 }
 
+// contractMentions: the function's contract refers to the call log of key.
+func (fv *FuncVC) contractMentions(key string) bool {
+	if fv.C == nil {
+		return false
+	}
+	if fv.mentions == nil {
+		fv.mentions = map[string]bool{}
+		var srcs []string
+		for _, c := range fv.C.Requires {
+			srcs = append(srcs, c.Src)
+		}
+		for _, c := range fv.C.Ensures {
+			srcs = append(srcs, c.Src)
+		}
+		for _, l := range fv.C.Loops {
+			for _, c := range l.Invs {
+				srcs = append(srcs, c.Src)
+			}
+		}
+		all := strings.Join(srcs, "\n")
+		for k := range fv.P.CS.Tracked {
+			if strings.Contains(all, "("+k+",") || strings.Contains(all, "("+k+")") {
+				fv.mentions[k] = true
+			}
+		}
+	}
+	return fv.mentions[key]
+}
+
 func (fv *FuncVC) havoc(ms *modSet, tag string) {
 	st := fv.cur
+	cellSet := map[*ssa.Alloc]bool{}
 	for a := range st.cells {
+		cellSet[a] = true
+	}
+	for _, a := range sortedAllocs(cellSet) {
 		esc := fv.escaped[a]
 		if esc && fv.closureOnly[a] && fv.inCall && !fv.curCallHasFuncArg {
 			esc = false // captured by a closure only, and this call cannot reach any closure
@@ -181,7 +215,7 @@ func (fv *FuncVC) havoc(ms *modSet, tag string) {
 			ms.heap[k] = true
 		}
 	}
-	for k := range ms.heap {
+	for _, k := range sortedKeys(ms.heap) {
 		s, ok := fv.heapSorts[k]
 		if !ok {
 			if t, ok2 := fv.P.HeapKeyType[k]; ok2 {
@@ -196,7 +230,7 @@ func (fv *FuncVC) havoc(ms *modSet, tag string) {
 		fv.heapTerm(st, k, s) // make sure the initial symbol exists
 		st.heap[k] = fv.freshHeap(k+"_"+tag, s)
 	}
-	for g := range ms.globals {
+	for _, g := range sortedGlobals(ms.globals) {
 		if fv.P.globalProtected(g) && !(isInitFn(fv.Fn) && fv.Fn.Pkg == g.Pkg) {
 			continue
 		}
@@ -204,12 +238,32 @@ func (fv *FuncVC) havoc(ms *modSet, tag string) {
 		fv.globalTerm(st, g)
 		st.globals[g] = fv.freshWF("Gl_"+g.Name()+"_"+tag, gt)
 	}
+	// entries of a call log below its current length are never rewritten: when a callee may append to a
+	// log this contract talks about, the old entries are kept (frame of the log arrays). Opt-in per
+	// contract (`flag logframe`): the extra quantified assumptions slow unrelated proofs down.
+	oldLen := map[string]string{}
 	for k := range ms.ghosts {
+		if len(k) > 10 && k[:10] == "logarrays." && fv.C != nil && fv.C.Flags["logframe"] != "" && fv.contractMentions(k[10:]) {
+			oldLen[k[10:]] = fv.ghostTerm(st, "log."+k[10:]+".n", SMath).S
+		}
+	}
+	for _, k := range sortedKeys(ms.ghosts) {
 		if len(k) > 10 && k[:10] == "logarrays." {
 			key := k[10:]
-			for hk, t := range st.heap {
+			hkeys := map[string]bool{}
+			for hk := range st.heap {
+				hkeys[hk] = true
+			}
+			for _, hk := range sortedKeys(hkeys) {
+				t := st.heap[hk]
 				if len(hk) > len("log."+key) && hk[:len("log."+key)+1] == "log."+key+"." {
-					st.heap[hk] = fv.freshHeap(hk+"_"+tag, t.Sort)
+					nh := fv.freshHeap(hk+"_"+tag, t.Sort)
+					if n, ok := oldLen[key]; ok {
+						fv.nfresh++
+						j := fmt.Sprintf("lf_q%d", fv.nfresh)
+						fv.assert(fmt.Sprintf("(forall ((%s Int)) (! (=> (< %s %s) (= (select %s %s) (select %s %s))) :pattern ((select %s %s))))", j, j, n, nh.S, j, t.S, j, nh.S, j))
+					}
+					st.heap[hk] = nh
 				}
 			}
 			continue
@@ -221,7 +275,7 @@ func (fv *FuncVC) havoc(ms *modSet, tag string) {
 			fv.assert(app(">=", n.S, old.S))
 		}
 	}
-	for v := range ms.slices {
+	for _, v := range sortedValues(ms.slices) {
 		val, defined := fv.vals[v]
 		if !defined || val.T.S == "" {
 			continue // the slice value is computed inside the loop: nothing to forget yet
